@@ -39,7 +39,7 @@ PROPS["C14"] = dict(
     phases=dict(quick=[enum(8), rc(8, 3000)], thorough=[enum(16), rc(16, 50000)]),
     rule=("cases: file maps (1-4 files) whose contents are strings over the scanner's significant characters, "
           "concatenated documented spellings and near-misses with/without separators, raw bytes, include layouts (one file name agrees with "
-          "the main file's up to a NUL byte), 1/40 of the texts preceded by more than 65535 newlines; "
+          "the main file's up to a NUL byte; files may end in a directive), 1/40 of the texts preceded by more than 65535 newlines; "
           "plus every string up to the enumerated length over a 12-character alphabet. Oracle: reference maximal-munch "
           "lexer with include splicing (kind, text, file, end line, one final EOF); committed lex.yy.c and a flex-generated "
           "scanner must both agree with it and with each other (output digest). Non-trivial: the reference stream has >=2 "
@@ -164,7 +164,7 @@ PROPS["C16"] = dict(
                 thorough=[rc(12, 10000), rc(12, 50000, flavour="fast", seed_offset=100), rc(8, 60000, harness="p_accept", seed_offset=200)]),
     rule=("cases: (accept direction) typed random programs, two thirds of them using neither WHILE nor GOTO with LOOP bodies that assign "
           "their own bound, a third with the library macros (which expand to LOOPs and assignments only), a twelfth with ~256-register frames. Oracle: the EXEC call graph of the emitted code is acyclic, the activation stack never exceeds definitions+1 "
-          "after any instruction, LOOP-only programs halt within the budget proportional to the reference step count and end in the "
+          "after any instruction (also in two further runs of a copy after reset(), from the middle and from the end of a run), LOOP-only programs halt within the budget proportional to the reference step count and end in the "
           "reference state. (reject direction, harness p_accept) self/forward/mutual references must be rejected unless an earlier "
           "complete definition of the name exists. Non-trivial: LOOP-only program with nesting >=2 whose body assigns the bound and which "
           "iterates, or a general program reaching call depth >=3, or a rejected reference attempt; distinct by content hash."),
@@ -292,7 +292,7 @@ PROPS["C06"] = dict(
           "set E, stepping flag S): execute stops at the first j>=k whose instruction is a site with S or loc in E, else at the end; "
           "executeSingle returns true exactly at such a site or at HALT; setBreakPoint returns true exactly for available locations and "
           "updates E only then; after every call ip, isDone, the enabled set and the stepping flag "
-          "are compared, getCurrentBreak() equals the site's location when the call stopped at a site and is none before the first step "
+          "are compared, getCurrentBreak() equals the site's location when the call stopped at a site, stays that location while calls that execute nothing follow, and is none before the first step "
           "and after reset. Non-trivial: stops at >=2 different sites of which one is on a line with >=2 sites or inside a callee."),
     exhaustive_note=dict(quick="all 9-letter histories of length <=5 on 7 fixed programs", thorough="all 9-letter histories of length <=6 on 7 fixed programs"),
     min_nontrivial=dict(quick=3000, thorough=50000),
